@@ -37,9 +37,13 @@ type nodeDesc struct {
 	Ins   []int      `json:"ins"`
 	Insp  string     `json:"insp"`
 	Stale bool       `json:"stale"`
-	Sib   string     `json:"sib"`
-	Lsn   string     `json:"lsn"`
-	Keys  string     `json:"keys"`
+	Upd   struct {
+		Pos  int `json:"pos"`  // rank of the cell replaced through updateCell (0 = none)
+		From int `json:"from"` // size of the value it had before
+	} `json:"upd"`
+	Sib  string `json:"sib"`
+	Lsn  string `json:"lsn"`
+	Keys string `json:"keys"`
 }
 
 type step struct {
@@ -178,8 +182,15 @@ func build(d *nodeDesc, page uint64) (*storage.VerifCodecNode, error) {
 		if len(d.Cells) != d.N || len(d.Ins) != d.N {
 			return nil, fmt.Errorf("descriptor: n=%d cells=%d ins=%d", d.N, len(d.Cells), len(d.Ins))
 		}
+		if d.Upd.Pos < 0 || d.Upd.Pos > d.N {
+			return nil, fmt.Errorf("descriptor: upd.pos=%d with n=%d", d.Upd.Pos, d.N)
+		}
 		for _, r := range d.Ins {
-			if err := v.InsertLeaf(keyOf(d.Keys, r, total), valueBytes(r, d.Cells[r-1].Sz)); err != nil {
+			sz := d.Cells[r-1].Sz
+			if r == d.Upd.Pos {
+				sz = d.Upd.From // the value the cell has before updateCell replaces it
+			}
+			if err := v.InsertLeaf(keyOf(d.Keys, r, total), valueBytes(r, sz)); err != nil {
 				return nil, fmt.Errorf("insertLeafCell: %w", err)
 			}
 		}
@@ -219,6 +230,13 @@ func build(d *nodeDesc, page uint64) (*storage.VerifCodecNode, error) {
 	}
 	if v.Count() != d.N {
 		return nil, fmt.Errorf("built node has %d cells, descriptor says %d", v.Count(), d.N)
+	}
+	if leaf && d.Upd.Pos > 0 {
+		// replace the value through btreeNode.updateCell (other bytes, possibly another length)
+		r := d.Upd.Pos
+		if err := v.UpdateLeaf(keyOf(d.Keys, r, total), valueBytes(r+100, d.Cells[r-1].Sz)); err != nil {
+			return nil, fmt.Errorf("updateCell: %w", err)
+		}
 	}
 	lsn, err := strconv.ParseUint(d.Lsn, 10, 64)
 	if err != nil {
@@ -367,6 +385,7 @@ func randomNode(rng *rand.Rand, page uint64) (*storage.VerifCodecNode, []string,
 		shape = []string{"leaf"}
 		n := pick(rng, storage.VerifCodecLeafCap)
 		split := n >= 2 && rng.Intn(4) == 0
+		asc := split || rng.Intn(3) == 0 // ascending key order, as the engine's row ids
 		keys := map[uint32]bool{}
 		var ks []uint32
 		for len(ks) < n {
@@ -379,10 +398,12 @@ func randomNode(rng *rand.Rand, page uint64) (*storage.VerifCodecNode, []string,
 				ks = append(ks, k)
 			}
 		}
-		if split {
+		if asc {
 			sort.Slice(ks, func(i, j int) bool { return ks[i] < ks[j] })
+		}
+		if split {
 			shape = append(shape, "leaf-split")
-		} else if n >= 2 {
+		} else if n >= 2 && !asc {
 			shape = append(shape, "leaf-perm")
 		}
 		for _, k := range ks {
@@ -404,6 +425,22 @@ func randomNode(rng *rand.Rand, page uint64) (*storage.VerifCodecNode, []string,
 		}
 		if n == storage.VerifCodecLeafCap && !split {
 			shape = append(shape, "leaf-full")
+		}
+		// values replaced through updateCell (ascending nodes only: updateCell
+		// addresses the slot by position), before or after the split
+		if asc && v.Count() >= 1 && rng.Intn(2) == 0 {
+			for u := 1 + rng.Intn(3); u > 0; u-- {
+				c, err := v.Content()
+				if err != nil {
+					return nil, nil, err
+				}
+				b := make([]byte, pickSize(rng))
+				rng.Read(b)
+				if err := v.UpdateLeaf(c.Cells[rng.Intn(len(c.Cells))].Key, b); err != nil {
+					return nil, nil, err
+				}
+			}
+			shape = append(shape, "leaf-updated")
 		}
 	} else {
 		n := pick(rng, storage.VerifCodecIntCap)
